@@ -329,7 +329,11 @@ impl LuaIndexExpr {
                             }
                         }
 
-                        return Some(LuaIndexKey::Expr(LuaExpr::cast(node).unwrap()));
+                        // e.g. a comment node between '[' and the key is not an expression
+                        match LuaExpr::cast(node) {
+                            Some(expr) => return Some(LuaIndexKey::Expr(expr)),
+                            None => continue,
+                        }
                     }
                     _ => {
                         if let Some(token) = child.as_token()
